@@ -47,7 +47,11 @@ func convByName(d *lib.Date, from, to string) (res *lib.Date, out string) {
 			res, out = nil, "panic"
 		}
 	}()
-	r, err := cal_types.Convert(d, from, to)
+	// the names are handed over the way a caller that has them as bytes does: string(bytes) at the call
+	// site. For short names that do not escape, the compiler puts the text into a temporary of the frame,
+	// so consecutive calls pass DIFFERENT names at the SAME address — a name is its text, not its address.
+	fb, tb := []byte(from), []byte(to)
+	r, err := cal_types.Convert(d, string(fb), string(tb))
 	if err != nil {
 		if r != nil {
 			return nil, "err+value"
@@ -115,7 +119,8 @@ func byNameHandler(args []string) (string, []string) {
 					out = "panic"
 				}
 			}()
-			v, err := cal_types.ToJd(d, a)
+			ab := []byte(a)
+			v, err := cal_types.ToJd(d, string(ab))
 			if err != nil {
 				return "err"
 			}
@@ -159,7 +164,8 @@ func byNameHandler(args []string) (string, []string) {
 					out = "panic"
 				}
 			}()
-			x, err := cal_types.JdTo(jd, a)
+			ab := []byte(a)
+			x, err := cal_types.JdTo(jd, string(ab))
 			if err != nil {
 				if x != nil {
 					return "err+value"
@@ -186,7 +192,8 @@ func byNameHandler(args []string) (string, []string) {
 					out = "panic"
 				}
 			}()
-			v, err := cal_types.ToJd(d, a)
+			ab := []byte(a)
+			v, err := cal_types.ToJd(d, string(ab))
 			if err != nil {
 				return "err"
 			}
